@@ -51,6 +51,9 @@ def programs(ctx, n, small=False):
     from harness import obsprog as op
     rng = ctx.rng("progs")
     out = [c["prog"] for c in ctx.corpus()]
+    # the directed co-handler family first (removal / re-arm of the watch from inside a callback with several handlers on it)
+    while len(out) < min(n, 24):
+        out.append(op.gen_cohandler_program(rng))
     while len(out) < n:
         p = op.gen_cohandler_program(rng) if rng.random() < 0.25 else op.gen_program(rng, max_calls=2 if small else 4)
         if op.n_starts(p) <= 1:
@@ -61,7 +64,7 @@ def programs(ctx, n, small=False):
 def run(ctx) -> Result:
     from harness import obsprog as op
     res = Result()
-    res.rule = ("random client programs (1-3 watches, 1-3 handlers, <=6 scripted events incl. identical neighbours, <=4 API calls "
+    res.rule = ("random client programs (1-3 watches, 1-3 handlers, <=6 scripted events incl. identical neighbours and near-twins that differ in one field (class, is_directory, dest_path, is_synthetic), <=4 API calls "
                 "+ prelude from 1-2 API threads, optional re-entrant calls from callbacks, final stop+join) x random schedules; "
                 "distinct = (program, per-(handler,watch) delivered sequences); non-trivial = at least one callback happened")
     for c in ctx.corpus():
@@ -81,6 +84,12 @@ def run(ctx) -> Result:
         dict(nw=1, nh=1, kind="scripted", scripts={"0": [0, 0, 0, 1, 1]}, threads=[[["schedule", 0, 0], ["start"]]], cbs={}),
         dict(nw=2, nh=1, kind="scripted", scripts={"0": [0, 0], "1": [0, 0]},
              threads=[[["schedule", 0, 0], ["schedule", 0, 1], ["start"]]], cbs={}),
+    ]
+    # near-twins back to back: events that differ in exactly one field (is_synthetic, class, is_directory, dest_path) are
+    # different events and must each be delivered, also while the predecessor is still queued
+    twins += [
+        dict(nw=1, nh=1, kind="scripted", scripts={"0": [1, 0, 0, 1, 2, 3]}, threads=[[["schedule", 0, 0], ["start"]]], cbs={}),
+        dict(nw=1, nh=1, kind="scripted", scripts={"0": [4, 6, 5, 4, 7, 6]}, threads=[[["schedule", 0, 0], ["start"]]], cbs={}),
     ]
     op.campaign(ctx, res, "C04", twins, judge, explore_runs=250 if not ctx.thorough else 3000, tag="twins")
     if ctx.thorough:
